@@ -64,7 +64,13 @@ size_t dtsize(int dt) {
 // ================================================================= client side
 int g_fd = -1; int g_world_rank = -1; int g_world_size = 0; bool g_inited = false;
 int g_next_req = 1;
-struct CReq { int kind; void* buf; size_t cap; };   // kind 0 send, 1 recv, 2 coll
+struct CReq { int kind; void* buf; size_t cap; uint64_t sum = 0; };   // kind 0 send, 1 recv, 2 coll
+// MPI usage rules the real code must obey but a copying simulation would otherwise never notice:
+//  * a send buffer must not be modified before the send completes (checksum at post, re-checked at completion);
+//  * the buffers of two active receives must not overlap;
+//  * a posted receive buffer has undefined content until completion (its head is poisoned at post time).
+uint64_t bufsum(const void* b, size_t n) { const unsigned char* p = (const unsigned char*)b; uint64_t h = 1469598103934665603ULL; for (size_t i = 0; i < n; ++i) { h ^= p[i]; h *= 1099511628211ULL; } return h; }
+[[noreturn]] void usage_error(const char* what) { fprintf(stderr, "SIMMPI-USAGE-ERROR: %s\n", what); fflush(stderr); abort(); }
 std::map<int, CReq> g_reqs;
 
 struct Reply { Hdr h; std::vector<char> data; };
@@ -80,6 +86,7 @@ size_t apply_completion(const char* p, MPI_Status* st) {
   int32_t id, src, tag; uint64_t n; memcpy(&id, p, 4); memcpy(&src, p + 4, 4); memcpy(&tag, p + 8, 4); memcpy(&n, p + 12, 8);
   auto it = g_reqs.find(id);
   if (it != g_reqs.end()) {
+    if (it->second.kind == 0 && it->second.buf && bufsum(it->second.buf, it->second.cap) != it->second.sum) usage_error("send buffer modified before the send completed");
     if (it->second.kind != 0 && n) memcpy(it->second.buf, p + 20, std::min<size_t>(n, it->second.cap));
     g_reqs.erase(it);
   }
@@ -121,11 +128,16 @@ int MPI_Allgather(const void* s, int sn, MPI_Datatype sdt, void* r, int rn, MPI_
 int MPI_Bcast(void* b, int n, MPI_Datatype dt, int root, MPI_Comm c) { coll(CK_BCAST, c, dt, 0, n, root, b, n * dtsize(dt), b, n * dtsize(dt)); return MPI_SUCCESS; }
 
 static int post_send(const void* b, int n, MPI_Datatype dt, int dest, int tag, MPI_Comm c, int sync, MPI_Request* rq) {
-  int id = g_next_req++; g_reqs[id] = CReq{0, nullptr, 0};
+  int id = g_next_req++; g_reqs[id] = CReq{0, const_cast<void*>(b), (size_t)n * dtsize(dt), bufsum(b, (size_t)n * dtsize(dt))};
   call(OP_ISEND, {c, dest, tag, sync, id}, b, n * dtsize(dt)); *rq = id; return MPI_SUCCESS; }
 int MPI_Isend(const void* b, int n, MPI_Datatype dt, int d, int t, MPI_Comm c, MPI_Request* r) { return post_send(b, n, dt, d, t, c, 0, r); }
 int MPI_Issend(const void* b, int n, MPI_Datatype dt, int d, int t, MPI_Comm c, MPI_Request* r) { return post_send(b, n, dt, d, t, c, 1, r); }
 int MPI_Irecv(void* b, int n, MPI_Datatype dt, int src, int tag, MPI_Comm c, MPI_Request* rq) {
+  { const char* lo = (const char*)b; const char* hi = lo + (size_t)n * dtsize(dt);
+    for (auto& kv : g_reqs) if (kv.second.kind == 1 && kv.second.cap && hi > lo) { const char* l2 = (const char*)kv.second.buf; const char* h2 = l2 + kv.second.cap; if (lo < h2 && l2 < hi) usage_error("two active receives use overlapping buffers"); } }
+  // the content of a posted receive buffer is undefined until the receive completes (MPI may write into it at any time):
+  // poison its head so that code which keeps reading a buffer it has already re-posted does not get away with it
+  if (b && n > 0) memset(b, 0xA5, std::min<size_t>((size_t)n * dtsize(dt), 65536));
   int id = g_next_req++; g_reqs[id] = CReq{1, b, n * dtsize(dt)};
   uint64_t cap = n * dtsize(dt); call(OP_IRECV, {c, src, tag, id, (int)(cap & 0x7fffffff), (int)(cap >> 31)}); *rq = id; return MPI_SUCCESS; }
 int MPI_Iallreduce(const void* s, void* r, int n, MPI_Datatype dt, MPI_Op op, MPI_Comm c, MPI_Request* rq) {
@@ -177,6 +189,8 @@ struct Coord {
   std::string policy = "uniform"; int racer = 0; long livelock_k = 400000; long since_progress = 0; long n_deliver = 0, n_complete = 0, n_answer = 0, n_false = 0;
   std::string verdict = "ok"; time_t t_start = time(nullptr); long wall_budget = 900; long immediate_run = 0, spin_k = 1500000; std::map<long, long> deviate; long decision = 0;
 
+  bool cyclic = false;   // SIMMPI_PLACEMENT=cyclic: world rank r lives on node r % N (round-robin) instead of r / P (block)
+  long icoll_idle = 0, icoll_idle_k = 4000;   // non-blocking collectives posted since the last point-to-point activity / harness event (per rank average): rounds that never end
   int hold_dst = -1; long hold_steps = 0;   // SIMMPI_HOLD=<dst>:<steps>: a message to dst is not delivered during its first <steps> scheduling steps (directed schedules)
   long log_written = 0, log_budget = 768L << 20;   // runaway handlers must not fill the disk
   void L(const char* fmt, ...) { if (!log) return; if (log_written > log_budget) { if (verdict == "ok") verdict = "log-budget"; return; }
@@ -228,7 +242,7 @@ struct Coord {
       case CK_BCAST: for (int i = 0; i < m; ++i) in.result[i] = in.contrib[in.root]; break;
       case CK_DUP: { int id = next_comm++; comms[id].members = c.members; comms[id].seq.assign(m, 0); for (int i = 0; i < m; ++i) in.ret[i] = id; break; }
       case CK_SPLIT: { std::map<int, std::vector<std::pair<int, int>>> groups;  // color -> (key, idx)
-        for (int i = 0; i < m; ++i) { int ck[2]; memcpy(ck, in.contrib[i].data(), 8); int color = ck[0] == -7777 ? c.members[i] / P : ck[0]; groups[color].push_back({ck[1], i}); }
+        for (int i = 0; i < m; ++i) { int ck[2]; memcpy(ck, in.contrib[i].data(), 8); int color = ck[0] == -7777 ? (cyclic ? c.members[i] % N : c.members[i] / P) : ck[0]; groups[color].push_back({ck[1], i}); }
         for (auto& g : groups) { std::sort(g.second.begin(), g.second.end()); int id = next_comm++; for (auto& ki : g.second) { comms[id].members.push_back(c.members[ki.second]); in.ret[ki.second] = id; } comms[id].seq.assign(g.second.size(), 0); } break; }
     }
   }
@@ -252,18 +266,18 @@ struct Coord {
       case OP_COMM_SIZE: out.a[0] = (int)comms[h.a[0]].members.size(); reply(r, out); return true;
       case OP_COMM_RANK: out.a[0] = crank(h.a[0], r); reply(r, out); return true;
       case OP_COMM_FREE: reply(r, out); return true;
-      case OP_LOG: L("h r=%d %.*s", r, (int)pl.size(), pl.data());
+      case OP_LOG: icoll_idle = 0; L("h r=%d %.*s", r, (int)pl.size(), pl.data());
         if (pl.size() > 2 && pl[0] == 'E' && pl[1] == ' ') { R.epoch = atoi(std::string(pl.data() + 2, pl.size() - 2).c_str()); R.icolls = 0; }
         reply(r, out); return true;
       case OP_GATE: R.gate_t0 = t; R.gate_base = (h.a[0] == 1 && h.a[1] >= 0 && h.a[1] < n) ? rk[h.a[1]].delivered : 0; return false;
-      case OP_ISEND: { auto m = std::make_shared<Msg>(); m->id = next_msg++; m->comm = h.a[0]; m->src = r; m->dst = comms[h.a[0]].members[h.a[1]]; m->tag = h.a[2]; m->sync = h.a[3]; m->data = pl; m->eager = (int)rng.below(100) < eager_pct; m->sreq = h.a[4]; m->t_enq = t;
+      case OP_ISEND: { icoll_idle = 0; auto m = std::make_shared<Msg>(); m->id = next_msg++; m->comm = h.a[0]; m->src = r; m->dst = comms[h.a[0]].members[h.a[1]]; m->tag = h.a[2]; m->sync = h.a[3]; m->data = pl; m->eager = (int)rng.below(100) < eager_pct; m->sreq = h.a[4]; m->t_enq = t;
         auto q = std::make_shared<Req>(); q->owner = r; q->id = h.a[4]; q->kind = 0; q->smsg = m; R.reqs[q->id] = q; chan[{m->comm, {m->src, m->dst}}].push_back(m);
         L("isend r=%d dst=%d comm=%d msg=%d bytes=%zu sync=%d eager=%d data=%s", r, m->dst, m->comm, m->id, pl.size(), (int)m->sync, (int)m->eager, hex(pl).c_str()); reply(r, out); return true; }
       case OP_IRECV: { auto q = std::make_shared<Req>(); q->owner = r; q->id = h.a[3]; q->kind = 1; q->comm = h.a[0]; q->src = h.a[1]; q->tag = h.a[2]; q->cap = (uint64_t)h.a[4] | ((uint64_t)h.a[5] << 31); R.reqs[q->id] = q;
         L("irecv r=%d comm=%d req=%d", r, q->comm, q->id);
         bool bound = false; for (size_t i = 0; i < R.unexpected.size(); ++i) if (match(*q, *R.unexpected[i])) { auto m = R.unexpected[i]; R.unexpected.erase(R.unexpected.begin() + i); bind(q, m); bound = true; break; }
         if (!bound) R.posted.push_back(q); reply(r, out); return true; }
-      case OP_ICOLL: { R.icolls++; auto q = std::make_shared<Req>(); q->owner = r; q->id = h.a[5]; q->kind = 2; q->comm = h.a[0]; R.reqs[q->id] = q;
+      case OP_ICOLL: { R.icolls++; if (++icoll_idle > icoll_idle_k * n && verdict == "ok") verdict = "livelock"; auto q = std::make_shared<Req>(); q->owner = r; q->id = h.a[5]; q->kind = 2; q->comm = h.a[0]; R.reqs[q->id] = q;
         q->seq = contribute(r, h.a[0], h.a[1], h.a[2], h.a[3], h.a[4], 0, pl);
         if (pl.size() == 16) { uint64_t v[2]; memcpy(v, pl.data(), 16); L("iallreduce r=%d comm=%d seq=%d v0=%llu v1=%llu", r, q->comm, q->seq, (unsigned long long)v[0], (unsigned long long)v[1]); } else L("icoll r=%d comm=%d seq=%d", r, q->comm, q->seq);
         reply(r, out); return true; }
@@ -379,7 +393,7 @@ struct Coord {
       Act a = acts[i];
       if (a.kind == 0) { n_answer++; since_progress = 0; answer(a.r); pump(a.r); }
       else if (a.kind == 1) { n_false++; answer(a.r); pump(a.r); }
-      else if (a.kind == 2) { n_deliver++; since_progress = 0; auto m = chan[a.ch].front(); chan[a.ch].pop_front(); L("deliver msg=%d src=%d dst=%d", m->id, m->src, m->dst); rk[m->dst].delivered++; arrive(m); }
+      else if (a.kind == 2) { n_deliver++; since_progress = 0; icoll_idle = 0; auto m = chan[a.ch].front(); chan[a.ch].pop_front(); L("deliver msg=%d src=%d dst=%d", m->id, m->src, m->dst); rk[m->dst].delivered++; arrive(m); }
       else { n_complete++; since_progress = 0; auto q = rk[a.r].reqs[a.req]; q->done = true; L("sendcomplete r=%d req=%d msg=%d", a.r, q->id, q->smsg->id); }
     }
     return 0;
@@ -395,6 +409,8 @@ int main(int argc, char** argv) {
   if ((e = getenv("SIMMPI_LOG"))) C.log = fopen(e, "w");
   if ((e = getenv("SIMMPI_POLICY"))) C.policy = e; if ((e = getenv("SIMMPI_WALL_S"))) C.wall_budget = atol(e); if ((e = getenv("SIMMPI_SPIN"))) C.spin_k = atol(e);
   if ((e = getenv("SIMMPI_DEVIATE"))) { std::string fs(e), tok; std::stringstream ss(fs); while (std::getline(ss, tok, ',')) { size_t c = tok.find(':'); if (c != std::string::npos) C.deviate[atol(tok.substr(0, c).c_str())] = atol(tok.substr(c + 1).c_str()); } } if ((e = getenv("SIMMPI_MAX_LOG_MB"))) C.log_budget = atol(e) << 20; if ((e = getenv("SIMMPI_LIVELOCK"))) C.livelock_k = atol(e);
+  if ((e = getenv("SIMMPI_ICOLL_IDLE"))) C.icoll_idle_k = atol(e);
+  if ((e = getenv("SIMMPI_PLACEMENT"))) C.cyclic = std::string(e) == "cyclic";
   if ((e = getenv("SIMMPI_HOLD"))) { if (sscanf(e, "%d:%ld", &C.hold_dst, &C.hold_steps) != 2) C.hold_dst = -1; }
   C.racer = (int)(C.rng.s % (uint64_t)C.n);
   signal(SIGPIPE, SIG_IGN);
